@@ -541,13 +541,19 @@ func execA(c caseA, each func(crashRun)) (n int, err error) {
 				if inArchiveWindow(actual, c.Op) {
 					class = " [kill between the archive copy of the current version and the publication of its successor]"
 				}
-				return fmt.Errorf("%s: after restart version id %q is listed twice for the key (%s)%s", where, dup, got, class)
+				e := fmt.Errorf("%s: after restart version id %q is listed twice for the key (%s)%s", where, dup, got, class)
+				if class == "" || collect == nil || !kf.Open("C11-version-listed-twice") {
+					return e
+				}
+				// the listed finding, exactly its shape: counted, and the case goes on - the later operations on the key
+				// (below) must work on top of what the crash left
+				collect(e)
 			}
 			cur := oldS
 			if isNew {
 				cur = newS
 			}
-			if want := expectVersions(c, cur, isNew); got != want {
+			if want := expectVersions(c, cur, isNew); dup == "" && got != want {
 				return fmt.Errorf("%s: after restart the key reads as %s but its version list is [%s], expected [%s]", where, cur, got, want)
 			}
 		}
@@ -675,8 +681,29 @@ func execA(c caseA, each func(crashRun)) (n int, err error) {
 				return fmt.Errorf("%s: after restart a PUT without tags reads back with tags %+v", where, tg.Tags)
 			}
 		}
+		// a version that survives the crash as the current one can still be changed (its tag set), and what it is then is
+		// what the next overwrite archives - not a copy the interrupted operation may have left behind
+		taggedVersion := ""
+		if c.Versioned && !c.Bare {
+			if h, err := cl().Call("HEAD", path, nil, nil, nil); err == nil && h.Status == 200 && h.Header.Get("x-amz-version-id") != "" {
+				tr, err := cl().Call("PUT", path, s3c.Q("tagging", ""), nil, s3c.TaggingXML([]s3c.Tag{{Key: "after", Value: "crash"}, {Key: "and", Value: "restart"}, {Key: "third", Value: "tag"}}))
+				if err != nil || !tr.OK() {
+					return fmt.Errorf("%s: after restart PutObjectTagging of the key fails: %v %v", where, tr, err)
+				}
+				taggedVersion = h.Header.Get("x-amz-version-id")
+			}
+		}
 		if r, err := cl().Call("PUT", path, nil, metaOf(3), bodies[3]); err != nil || !r.OK() {
 			return fmt.Errorf("%s: after restart a PUT of the key fails: %v %v", where, r, err)
+		}
+		if taggedVersion != "" {
+			g, err := cl().Call("GET", path, s3c.Q("versionId", taggedVersion), nil, nil)
+			if err != nil {
+				return fmt.Errorf("SETUP: %v", err)
+			}
+			if g.Status != 200 || g.Header.Get("x-amz-tagging-count") != "3" {
+				return fmt.Errorf("%s: after restart the current version %s was given three tags (200) and then overwritten; as a noncurrent version it answers %d with x-amz-tagging-count %q", where, taggedVersion, g.Status, g.Header.Get("x-amz-tagging-count"))
+			}
 		}
 		v3, err := look(cl(), bkt, key, false)
 		if err != nil {
